@@ -104,6 +104,8 @@ type PathQuery struct {
 	IgnorePanics bool
 	// Target, if non-nil, replaces "function exit" as the thing searched for.
 	Target func(ssa.Instruction) bool
+	// TargetPath is Target with the block path that led to the instruction.
+	TargetPath func(ssa.Instruction, []*ssa.BasicBlock) bool
 }
 
 // PathFrom searches for a path starting right after instruction `from` that
@@ -130,21 +132,26 @@ func PathFromBlock(b *ssa.BasicBlock, q PathQuery) *Exit {
 
 func pathSearch(start *ssa.BasicBlock, idx int, q PathQuery) *Exit {
 	type item struct {
-		b    *ssa.BasicBlock
-		i    int
-		path []*ssa.BasicBlock
+		b, pred *ssa.BasicBlock
+		i       int
+		path    []*ssa.BasicBlock
 	}
-	seen := map[*ssa.BasicBlock]bool{}
-	work := []item{{start, idx, []*ssa.BasicBlock{start}}}
+	type key struct{ b, pred *ssa.BasicBlock }
+	seen := map[key]bool{}
+	work := []item{{start, nil, idx, []*ssa.BasicBlock{start}}}
 	first := true
 	for len(work) > 0 {
 		it := work[0]
 		work = work[1:]
 		if !first || it.i == 0 {
-			if seen[it.b] {
+			k := key{it.b, it.pred}
+			if !threadable(it.b) {
+				k.pred = nil
+			}
+			if seen[k] {
 				continue
 			}
-			seen[it.b] = true
+			seen[k] = true
 		}
 		first = false
 		stopped := false
@@ -153,6 +160,12 @@ func pathSearch(start *ssa.BasicBlock, idx int, q PathQuery) *Exit {
 			if q.Stop != nil && q.Stop(in) {
 				stopped = true
 				break
+			}
+			if q.TargetPath != nil {
+				if q.TargetPath(in, it.path) {
+					return &Exit{in, it.path}
+				}
+				continue
 			}
 			if q.Target != nil {
 				if q.Target(in) {
@@ -172,15 +185,149 @@ func pathSearch(start *ssa.BasicBlock, idx int, q PathQuery) *Exit {
 		if stopped {
 			continue
 		}
-		for _, s := range it.b.Succs {
+		succs := it.b.Succs
+		if it.pred != nil {
+			if v, ok := DecideOnEntry(it.b, it.pred); ok && len(succs) == 2 {
+				// the branch is decided by the values the phis of this block have when entered from pred
+				if v {
+					succs = succs[:1]
+				} else {
+					succs = succs[1:]
+				}
+			}
+		}
+		for _, s := range succs {
 			if q.SkipEdge != nil && q.SkipEdge(it.b, s) {
 				continue
 			}
 			np := append(append([]*ssa.BasicBlock{}, it.path...), s)
-			work = append(work, item{s, 0, np})
+			work = append(work, item{s, it.b, 0, np})
 		}
 	}
 	return nil
+}
+
+// threadable: the block ends in a branch on one of its own phis.
+func threadable(b *ssa.BasicBlock) bool {
+	if len(b.Instrs) == 0 {
+		return false
+	}
+	iff, ok := b.Instrs[len(b.Instrs)-1].(*ssa.If)
+	if !ok {
+		return false
+	}
+	c, _ := normBool(iff.Cond, true)
+	if ph, ok := c.(*ssa.Phi); ok && ph.Block() == b {
+		return true
+	}
+	if bo, ok := c.(*ssa.BinOp); ok {
+		for _, side := range []ssa.Value{bo.X, bo.Y} {
+			if ph, ok := side.(*ssa.Phi); ok && ph.Block() == b {
+				return true
+			}
+		}
+	}
+	return false
+}
+
+// DecideOnEntry evaluates the branch condition of block b for control entering it from pred, when
+// the condition only depends on phis of b whose input from pred is a constant or a value known to be
+// non-nil (jump threading: a helper's `return err` followed by the caller's `if err != nil`).
+func DecideOnEntry(b, pred *ssa.BasicBlock) (bool, bool) {
+	if len(b.Instrs) == 0 {
+		return false, false
+	}
+	iff, ok := b.Instrs[len(b.Instrs)-1].(*ssa.If)
+	if !ok {
+		return false, false
+	}
+	// only phis, the comparison and the If may precede: nothing that could change what is tested
+	pi := -1
+	for i, p := range b.Preds {
+		if p == pred {
+			pi = i
+		}
+	}
+	if pi < 0 {
+		return false, false
+	}
+	in := func(v ssa.Value) (ssa.Value, bool) {
+		if ph, ok := v.(*ssa.Phi); ok && ph.Block() == b {
+			return ph.Edges[pi], true
+		}
+		return v, false
+	}
+	c, pol := normBool(iff.Cond, true)
+	if v, isPhi := in(c); isPhi {
+		if k, ok := boolConst(v); ok {
+			return k == pol, true
+		}
+		return false, false
+	}
+	bo, ok := c.(*ssa.BinOp)
+	if !ok || (bo.Op != token.EQL && bo.Op != token.NEQ) {
+		return false, false
+	}
+	x, xp := in(bo.X)
+	y, yp := in(bo.Y)
+	if !xp && !yp {
+		return false, false
+	}
+	// X ==/!= nil
+	var other ssa.Value
+	switch {
+	case IsNilConst(y):
+		other = x
+	case IsNilConst(x):
+		other = y
+	default:
+		return false, false
+	}
+	var isNil bool
+	switch {
+	case IsNilConst(other):
+		isNil = true
+	case NonNil(other):
+		isNil = false
+	default:
+		return false, false
+	}
+	res := isNil == (bo.Op == token.EQL)
+	return res == pol, true
+}
+
+// ResolveAlong resolves v through the phis of the blocks on path (the value each phi has when its
+// block is entered from the preceding block of the path), from the end of the path backwards.
+func ResolveAlong(v ssa.Value, path []*ssa.BasicBlock) ssa.Value {
+	for n := 0; n < 32; n++ {
+		ph, ok := v.(*ssa.Phi)
+		if !ok {
+			return v
+		}
+		// last occurrence of the phi's block on the path
+		at := -1
+		for i := len(path) - 1; i >= 1; i-- {
+			if path[i] == ph.Block() {
+				at = i
+				break
+			}
+		}
+		if at < 1 {
+			return v
+		}
+		pi := -1
+		for i, p := range ph.Block().Preds {
+			if p == path[at-1] {
+				pi = i
+			}
+		}
+		if pi < 0 {
+			return v
+		}
+		v = ph.Edges[pi]
+		path = path[:at]
+	}
+	return v
 }
 
 // Reaches reports whether instruction b can execute after instruction a
@@ -479,6 +626,19 @@ func invariantIn(v ssa.Value, at *ssa.BasicBlock) bool {
 		return true
 	case *ssa.Convert:
 		return invariantIn(x.X, at)
+	case *ssa.Call:
+		// len/cap of a slice value that is itself fixed (slice headers are values: the length of an
+		// SSA slice value cannot change)
+		if b, ok := x.Call.Value.(*ssa.Builtin); ok && (b.Name() == "len" || b.Name() == "cap") && len(x.Call.Args) == 1 {
+			if _, isSlice := x.Call.Args[0].Type().Underlying().(*types.Slice); isSlice {
+				return invariantIn(x.Call.Args[0], at)
+			}
+			if _, isStr := x.Call.Args[0].Type().Underlying().(*types.Basic); isStr {
+				return invariantIn(x.Call.Args[0], at)
+			}
+		}
+		b := x.Block()
+		return b != at && b.Dominates(at)
 	case *ssa.BinOp:
 		if x.Block() == at || !x.Block().Dominates(at) {
 			return invariantIn(x.X, at) && invariantIn(x.Y, at)
@@ -592,4 +752,128 @@ func expandFacts(in []Fact, depth int) []Fact {
 		out = append(out, expandFacts(sub, depth+1)...)
 	}
 	return out
+}
+
+// FeasibleEdges returns the indices of the inputs of phi that are consistent with facts: an input
+// edge is ruled out when a sibling phi of the same block, known (by a fact) to be nil / not nil,
+// would receive a non-nil / nil value over that edge. This is how the values a helper returned
+// together are correlated after its call site was expanded: `chunk, rest, err := ...` followed by
+// `if err != nil { return }` leaves only the success return's chunk and rest.
+func FeasibleEdges(ph *ssa.Phi, facts []Fact) []int {
+	var out []int
+	for i := range ph.Edges {
+		ok := true
+		for _, f := range facts {
+			cmp, isCmp := CanonCmp(f.Cond, f.Pol)
+			if !isCmp || (cmp.Op != token.EQL && cmp.Op != token.NEQ) {
+				continue
+			}
+			var q ssa.Value
+			switch {
+			case IsNilConst(cmp.Y):
+				q = cmp.X
+			case IsNilConst(cmp.X):
+				q = cmp.Y
+			default:
+				continue
+			}
+			sib, isPhi := chase(q).(*ssa.Phi)
+			if !isPhi || sib.Block() != ph.Block() || i >= len(sib.Edges) {
+				continue
+			}
+			in := sib.Edges[i]
+			if cmp.Op == token.EQL && NonNil(in) {
+				ok = false
+			}
+			if cmp.Op == token.NEQ && IsNilConst(in) {
+				ok = false
+			}
+		}
+		if ok {
+			out = append(out, i)
+		}
+	}
+	return out
+}
+
+// RootAt is Root with the facts that hold at block at: a phi whose inputs are all but one ruled out
+// by those facts (FeasibleEdges) is replaced by the remaining input.
+func RootAt(v ssa.Value, at *ssa.BasicBlock) ssa.Value {
+	for n := 0; n < 8; n++ {
+		v = Root(v)
+		ph, ok := v.(*ssa.Phi)
+		if !ok || at == nil || !ph.Block().Dominates(at) {
+			return v
+		}
+		idx := FeasibleEdges(ph, FactsAt(at))
+		if len(idx) != 1 {
+			return v
+		}
+		v = ph.Edges[idx[0]]
+	}
+	return v
+}
+
+// OnAllWays reports whether want holds for the facts of every way control can reach block b: either
+// for the facts that dominate b, or - case split - for every feasible input edge of a boolean phi
+// that is known true/false at b (a flag a helper computed from several tests), or for every
+// predecessor edge of b (recursively, not following back edges).
+func OnAllWays(b *ssa.BasicBlock, want func([]Fact) bool, depth int) bool {
+	facts := FactsAt(b)
+	if want(facts) {
+		return true
+	}
+	if depth > 3 {
+		return false
+	}
+	for _, f := range facts {
+		ph, ok := f.Cond.(*ssa.Phi)
+		if !ok {
+			continue
+		}
+		if bt, isB := ph.Type().Underlying().(*types.Basic); !isB || bt.Info()&types.IsBoolean == 0 {
+			continue
+		}
+		n, all := 0, true
+		for i, e := range ph.Edges {
+			if k, isC := boolConst(e); isC && k != f.Pol {
+				continue
+			}
+			n++
+			pred := ph.Block().Preds[i]
+			sub := EdgeFacts(pred, ph.Block())
+			if _, isC := boolConst(e); !isC {
+				sub = append(sub, expandFacts([]Fact{{e, f.Pol, f.If}}, 0)...)
+			}
+			if !want(append(append([]Fact{}, facts...), sub...)) && !onAllWaysEdge(pred, ph.Block(), want, depth+1) {
+				all = false
+			}
+		}
+		if n > 0 && all {
+			return true
+		}
+	}
+	if len(b.Preds) == 0 {
+		return false
+	}
+	for _, p := range b.Preds {
+		if b.Dominates(p) {
+			return false // loop head: give up
+		}
+		if !onAllWaysEdge(p, b, want, depth+1) {
+			return false
+		}
+	}
+	return true
+}
+
+func onAllWaysEdge(from, to *ssa.BasicBlock, want func([]Fact) bool, depth int) bool {
+	if want(EdgeFacts(from, to)) {
+		return true
+	}
+	// the edge adds nothing decisive: look at the ways into from
+	if len(from.Succs) == 1 {
+		return OnAllWays(from, want, depth)
+	}
+	return false
 }
